@@ -372,6 +372,42 @@ example : (runPair (α := ℚ) (fun _ a => a) (fun _ a => a) (fun _ => 1) (fresh
     [.modulate [1, 2], .setParams 4 5 none, .setParams 2 2 (some 2)]).1.ofdm = ⟨2, 2, 2⟩ := by
   decide +kernel
 
+/-! ## robustness: rejected calls, scale, deep notches -/
+
+/-- **A call that raises changes nothing** (R4): whichever operation of the pair reports an exception —
+    a rejected `set_parameters`, a `demodulate` of a wrong-length stream, an `equalize_data` of badly
+    shaped data — the pair is exactly as before; together with `pair_equals_fresh` the continued history
+    is that of an object which never saw the rejected call. (That outputs are fresh values and depend on
+    the logical values only — not on dtype or memory layout — is built into the model: its functions are
+    pure functions on lists of scalars; the harness checks the code against that on typed,
+    non-contiguous and snapshotted arguments.) -/
+theorem pair_rejected_unchanged {α : Type} [Zero α] [Add α] [Mul α] [Div α] [NatCast α]
+    (F Finv : ℕ → List α → List α) (sc : Params → α) (s : Pair) (op : PairOp α) (e : PyErr)
+    (h : (stepPair F Finv sc s op).2 = .error e) : (stepPair F Finv sc s op).1 = s :=
+  stepPair_error_unchanged F Finv sc s op e h
+
+/-- **Scale** (R6): multiplying every tap by `c` multiplies the frequency response by `c`, so the
+    hypothesis `H[k] ≠ 0` of `one_tap_exact` is invariant under any non-zero rescaling of the channel;
+    the input `x` is universally quantified. Hence the recovery is exact at every scale of signal and
+    channel, and for every depth of a spectral notch short of an exact null (R5): no absolute threshold
+    appears anywhere. -/
+theorem freq_response_scales {K : Type} [Field K] (ω c : K) (delays : List ℕ) (gains : List K) (k : ℕ) :
+    Hs ω delays (gains.map (fun g => c * g)) k = c * Hs ω delays gains k := Hs_scale ω c delays gains k
+
+/-- `one_tap_exact` for the channel rescaled by any `c ≠ 0` (say `1e-12` or `1e12`). -/
+theorem one_tap_exact_scaled {K : Type} [Field K] [CharZero K] (p : Params) (hp : p.Valid) (ω : K)
+    (hω : IsPrimitiveRoot ω p.fft) (s : K) (hs : s ≠ 0) (c : K) (hc : c ≠ 0) (delays : List ℕ)
+    (gains : List K) (M : ℕ) (hM : delays.getLast? = some M) (hd : ∀ d ∈ delays, d ≤ M)
+    (hnd : delays.Nodup) (hMC : M ≤ p.cp) (hMN : M < p.fft)
+    (hH : ∀ k ∈ usedIdx p.fft p.used, Hs ω delays gains k ≠ 0) (x : List K) :
+    oneTapReceive (fun n a => dft (fun m => ω ^ m) n a) s p
+        (staticIR delays (gains.map (fun g => c * g))
+          (modulate (fun n a => idft (fun m => ω⁻¹ ^ m) n a) s p x).length)
+        (modulate (fun n a => idft (fun m => ω⁻¹ ^ m) n a) s p x)
+      = .ok (x ++ List.replicate (zeropad p x.length) 0) :=
+  one_tap_exact' p hp ω hω s hs delays _ M hM hd hnd hMC hMN
+    (fun k hk => by rw [Hs_scale]; exact mul_ne_zero hc (hH k hk)) x
+
 /-- the witness configuration `OFDM(2, 2, 2)`, taps at delays `0` and `2` (memory = cp = fft) -/
 def witnessParams : Params := ⟨2, 2, 2⟩
 
